@@ -81,6 +81,10 @@ type Model struct {
 	Shutdown  bool
 
 	TotSubInc, TotSubDec, TotTrigInc, TotTrigDec int
+	// InitArrivals counts the start goroutines that got to markTriggerInitialized (hooks fine,
+	// Start returned nil). Its yield point sits at the top of that function, so each of them
+	// shows up there exactly once, whether its trigger still exists or not.
+	InitArrivals int
 
 	owner     int
 	nextOwner int
@@ -341,6 +345,7 @@ func (m *Model) startResult(p *MPeriod, err, why string) {
 		m.killPeriod(p, why+" (start failure)", true, false)
 		return
 	}
+	m.InitArrivals++
 	if p.Live {
 		p.Initialized = true
 		m.TotTrigInc++
